@@ -352,31 +352,42 @@ def guardString (op : Json) (k : String) : Option String :=
   | _ => none
 
 /-- two unescaped tokens name the same child wherever they are resolved: equal strings, or
-    equal as array indices -/
+    equal as array indices (the comparison of the first guard, D16; kept for the statement that
+    the guard of today refuses no more than that one did) -/
 def sameDecoded (a b : String) : Bool :=
   a == b || (match atoi? a, atoi? b with
              | some x, some y => x == y
              | _, _ => false)
 
-/-- the composer's token comparison -/
-def sameToken (a b : List Char) : Bool := sameDecoded (decodeKey a) (decodeKey b)
+/-- the composer's walk along `from` (D45): at every level the two tokens are compared the way the
+    container at hand resolves them — exactly in an object, as numbers (within range) in a list —
+    and the walk goes on in the child they name. `none` is Go's `nil` (a member that is not there;
+    JSON `null` decodes to it as well). -/
+def belowIn : Option Json → List (String × String) → Bool
+  | _, [] => true
+  | some (.obj kvs), (a, b) :: rest => a == b && belowIn (Json.lookup a kvs) rest
+  | some (.arr xs), (a, b) :: rest =>
+    match atoi? a, atoi? b with
+    | some x, some y => x == y && decide (0 ≤ x ∧ x < xs.length) && belowIn xs[x.toNat]? rest
+    | _, _ => false
+  | _, _ :: _ => false
 
-/-- `isBelow(path, from)` of the composer: whatever precedes the first `/` is ignored -/
-def isBelow (path frm : String) : Bool :=
+/-- `isBelow(path, from, doc)` of the composer: whatever precedes the first `/` is ignored -/
+def isBelow (path frm : String) (doc : Json) : Bool :=
   let f := splitSlash frm.toList
   let p := splitSlash path.toList
   if p.length ≤ f.length then false
-  else ((f.drop 1).zip (p.drop 1)).all fun ab => sameToken ab.1 ab.2
+  else belowIn (some doc) (((f.drop 1).map decodeKey).zip ((p.drop 1).map decodeKey))
 
 /-- `targetsOwnSource` for one operation -/
-def targetsOwnSource (op : Json) : Bool :=
+def targetsOwnSource (op : Json) (doc : Json) : Bool :=
   match guardString op "op", guardString op "from", guardString op "path" with
-  | some kind, some frm, some path => (kind = "copy" || kind = "move") && isBelow path frm
+  | some kind, some frm, some path => (kind = "copy" || kind = "move") && isBelow path frm doc
   | _, _, _ => false
 
 /-- `applyJSONPatchOperation`: the guard, then the library; a panic is answered as an error -/
 def applyGuarded (doc : Json) (op : Json) : R Json :=
-  if targetsOwnSource op then .err
+  if targetsOwnSource op doc then .err
   else match applyOp doc op with
     | .panic => .err
     | r => r
